@@ -13,7 +13,7 @@ import ast
 
 from .. import stageclass
 from ..pipeline import Pipeline
-from ..model import unparse
+from ..model import unparse, own_nodes
 from ..values import Val, texts
 
 EXPLANATION = (
@@ -189,3 +189,75 @@ def check(ctx) -> None:
     from . import c05
 
     c05.rule_p1(ctx, pl, "C04-G10", only_duplicates=True)
+    rule_g11(ctx)
+
+
+def rule_g11(ctx, rule_id: str = "C04-G11") -> None:
+    """The columns are configurable (`reaction_col`, `id_col`, ...): every stage object stores them as options.  When
+    a method of such an object calls a package function that has a parameter of the same name, the option has to be
+    passed on - a parameter left at its default makes the callee work on the literal default column while its caller
+    works on the configured one."""
+    ctx.rule(rule_id, "a column option of a stage object is passed on to every callee that has a parameter of that name", 3)
+    # judged on the program as written: an expanded helper has its defaults bound already
+    prog, res = ctx.raw
+    reach = set(res.reachable(["synrbl.balancing.Balancer.__run_pipeline"], res.call_graph()))
+    n = 0
+    for q in sorted(reach):
+        f = prog.functions.get(q)
+        if f is None or f.cls is None or not q.startswith("synrbl."):
+            continue
+        init = prog.lookup_method(f.cls, "__init__")
+        if init is None:
+            continue
+        options = {p_ for p_ in init.params[1:] + init.kwonly if p_.endswith("_col")}
+        if not options:
+            continue
+        for c in [x for x in own_nodes(f.node) if isinstance(x, ast.Call)]:
+            tgt = res.resolve_callee(c, f)
+            g = None
+            if tgt and tgt[0] == "func":
+                g = prog.functions.get(tgt[1])
+            elif tgt and tgt[0] == "class":
+                gc = prog.classes.get(tgt[1])
+                g = prog.lookup_method(gc, "__init__") if gc is not None else None
+            if g is None or g.cls is f.cls:
+                continue
+            defaults = g.param_defaults()
+            gparams = g.params + g.kwonly
+            skip = 1 if (g.cls is not None and not g.is_static) else 0
+            for p_ in sorted(options & set(gparams)):
+                if p_ not in defaults:
+                    continue  # required: a missing argument would not run at all
+                n += 1
+                passed = any(k.arg == p_ for k in c.keywords) or any(k.arg is None for k in c.keywords) or (gparams.index(p_) - skip) < len(c.args)
+                ctx.instance(rule_id, "%s -> %s(..): %s %s" % (q.split("synrbl.", 1)[-1], g.name if g.name != "__init__" else g.cls.name, p_, "passed" if passed else "left at its default %s" % unparse(defaults[p_])), f.loc(c), ok=passed)
+                if not passed:
+                    ctx.finding(rule_id, "%s:%s:%s-defaulted" % (q.split("synrbl.", 1)[-1], g.name if g.name != "__init__" else g.cls.name, p_), f.loc(c), "%s calls %s without its %s: the callee works on the default column %s while %s is configured with another one, so with a caller-chosen column the two look at different data" % (f.name, g.name, p_, unparse(defaults[p_]), f.cls.name))
+    ctx.require(n >= 1, "no call that forwards a column option found on the pipeline path")
+    rule_g12(ctx)
+
+
+def rule_g12(ctx, rule_id: str = "C04-G12") -> None:
+    """Where a stage annotates a copy of a row with values it has just computed (`{"Unbalance": side, **row}`), the
+    computed entries must win: in a dict display the later entry overrides the earlier one, so `**row` has to come first.
+    Otherwise a column of that name that travels with the input shadows the fresh value and routes the row wrongly."""
+    ctx.rule(rule_id, "computed annotations are not shadowed by keys unpacked from the row afterwards", 0)
+    prog = ctx.prog
+    n = 0
+    for q in sorted(ctx.pipeline_reachable()):
+        f = prog.functions.get(q)
+        if f is None or not q.startswith("synrbl."):
+            continue
+        for d in [x for x in own_nodes(f.node) if isinstance(x, ast.Dict)]:
+            if None not in d.keys:
+                continue
+            first_const = next((i for i, k in enumerate(d.keys) if k is not None), None)
+            late_unpacks = [d.values[i] for i, k in enumerate(d.keys) if k is None and first_const is not None and i > first_const]
+            if first_const is None:
+                continue
+            n += 1
+            ctx.instance(rule_id, "%s: %s" % (q.split("synrbl.", 1)[-1], unparse(d)[:70]), f.loc(d), ok=not late_unpacks)
+            for u in late_unpacks:
+                ctx.finding(rule_id, "%s:row-keys-shadow-annotations" % q.split("synrbl.", 1)[-1], f.loc(d), "%s builds %s: the keys unpacked from %s come after the computed entries and override them, so a column of the same name in the input decides instead of the value just computed" % (f.name, unparse(d)[:60], unparse(u)[:30]))
+    if n == 0:
+        ctx.note("%s: no dict display mixes computed entries with an unpacked row on the pipeline path" % rule_id)
